@@ -80,6 +80,8 @@ pub enum Origin
     On,
     /// Created by a `Once` op.
     Once,
+    /// Added at app build with `App::add_reactor(triggers, system)` (persistent; its entity stays unknown to the harness).
+    App,
     /// World reactor `W0`/`W1` (index), added at app build.
     World(u8),
     /// Entity world reactor `T0`/`T1` (index), added at app build.
@@ -252,6 +254,9 @@ pub struct Program
     /// Starting triggers of world reactor `W1` (`add_world_reactor_with`).
     #[serde(default)]
     pub wr_starting: Vec<Trig>,
+    /// Triggers of the `Origin::App` instances: (instance, triggers).
+    #[serde(default)]
+    pub app_reactors: Vec<(Inst, Vec<Trig>)>,
 }
 
 impl Program
